@@ -61,17 +61,19 @@ Fixpoint write_nodes (reg : option layout -> region_id) (nodes : list dnode)
         end
   end.
 
-Definition write_cap (m : list (layout * region_id)) (lang_l : option layout) (c : dcap) : xp :=
-  mkXp (Some (region_lookup m (dfxp_choice None lang_l (dc_layout c) None)))
+(* g: the set-level layout (CaptionSet.layout_info): never collected as a region, but the last fallback of
+   get_positioning_info - it finds a region only when an EQUAL layout was collected elsewhere *)
+Definition write_cap (m : list (layout * region_id)) (g lang_l : option layout) (c : dcap) : xp :=
+  mkXp (Some (region_lookup m (dfxp_choice g lang_l (dc_layout c) None)))
        (write_nodes (region_lookup m) (dc_nodes c) None []).
 
-Definition write_lang (m : list (layout * region_id)) (lg : dlang) : xdiv :=
-  mkXdiv (Some (region_lookup m (dfxp_choice None (dl_layout lg) None None)))
-         (map (write_cap m (dl_layout lg)) (dl_caps lg)).
+Definition write_lang (m : list (layout * region_id)) (g : option layout) (lg : dlang) : xdiv :=
+  mkXdiv (Some (region_lookup m (dfxp_choice g (dl_layout lg) None None)))
+         (map (write_cap m g (dl_layout lg)) (dl_caps lg)).
 
-Definition write_doc (s : list dlang) : xdoc :=
+Definition write_doc (g : option layout) (s : list dlang) : xdoc :=
   let m := region_map (set_layouts s) in
-  mkXdoc (map (fun kv => (snd kv, layout_attrs (fst kv))) m) (map (write_lang m) s).
+  mkXdoc (map (fun kv => (snd kv, layout_attrs (fst kv))) m) (map (write_lang m g) s).
 
 (* ---- read ------------------------------------------------------------------------------------------------- *)
 Definition region_id_eqb (a b : region_id) : bool :=
@@ -164,4 +166,4 @@ Definition read_div (regs : list (region_id * region_attrs)) (d : xdiv) : result
 
 Definition read_doc (d : xdoc) : result (list rlang) := res_map (read_div (x_regions d)) (x_divs d).
 
-Definition dfxp_roundtrip (s : list dlang) : result (list rlang) := read_doc (write_doc s).
+Definition dfxp_roundtrip (g : option layout) (s : list dlang) : result (list rlang) := read_doc (write_doc g s).
